@@ -486,7 +486,7 @@ func c14DecoderErrors(c *Ctx, only ...string) {
 			c.check(used, rule, key, w.ipos(cs.In), "error result is tested or returned", "the error result of "+cs.Name+" is discarded inside a decoder: malformed or unsupported input is silently truncated instead of being rejected")
 			// and a decoder that can fail itself fails when its sub-decoder does: skipping the element that failed
 			// (continue) re-encodes the header without it
-			if used && errIndexOfFn(fn) >= 0 {
+			if used && errIndexOfFn(fn) >= 0 && canReach(entryPt(fn), nil, isInstr(cs.In), nil) { // not code behind a test that can never fire
 				okP, why := w.errPropagated(fn, call)
 				c.check(okP, rule, key+"/propagated", w.ipos(cs.In), "a failing sub-decoder makes the decoder fail", "a failure of "+cs.Name+" does not make "+w.fname(fn)+" fail ("+why+"): the element that could not be decoded is dropped and the header is re-encoded without it")
 			}
